@@ -83,6 +83,6 @@ def run(res, ctx):
         explore(r2, 'thorough', seed + 1)
         return r2.corr['impl_failures']
 
-    cov = {'rule': 'shape catalogue + seeded random shapes built with serde + nanoserde; for each value pair the owned diff and the borrowed diff are serialized with nanoserde and with bincode, the bytes of BOTH forms are decoded as the owned diff type, applied to a and to an equivalent follower and compared with the in-memory diff\'s effect (and with the model); re-encoding the decoded value must have the same length; same-bytes statistics for owned vs borrowed form are recorded (they may differ legitimately where two separately built hash maps iterate in different orders); distinct_nontrivial = distinct requests with a non-empty serialized diff',
+    cov = {'rule': 'shape catalogue + seeded random shapes built with serde + nanoserde; for each value pair the owned diff and the borrowed diff are serialized with nanoserde and with bincode, the bytes of BOTH forms are decoded as the owned diff type, applied to a and to an equivalent follower and compared with the in-memory diff\'s effect (and with the model); re-encoding the decoded value must have the same length; same-bytes statistics for owned vs borrowed form are recorded (they may differ legitimately where two separately built hash maps iterate in different orders); byte ties (props/wiretie.py, props/structtie.py): model encoder vs real bytes, model decoder on real bytes (Diff and DiffRef lists), the diff of the derive model through toWire + wire encoder vs real bytes, real decoders on model encodings of arbitrary values and on damaged encodings (truncation, unknown entry / diff / change discriminants, odd Option tags), on tie shapes covering all eight field templates (see input_distribution: wire-* and struct-* keys); distinct_nontrivial = distinct requests with a non-empty serialized diff',
            'programs': len(shs)}
     return core.finish(res, LEVEL, cov, ASSUMPTIONS, proof_ok, search)
